@@ -7,6 +7,7 @@ package cesium
 
 import (
 	"context"
+	mrand "math/rand"
 	"encoding/binary"
 	"fmt"
 	"os"
@@ -18,6 +19,7 @@ import (
 	"testing/synctest"
 	"time"
 
+	"github.com/google/uuid"
 	"github.com/synnaxlabs/cesium/internal/index"
 	"github.com/synnaxlabs/x/errors"
 	xfs "github.com/synnaxlabs/x/io/fs"
@@ -105,8 +107,8 @@ func vValue(dt string, key uint32, seq int) []byte {
 	case "json":
 		return []byte(`{"k":` + strconv.Itoa(int(key)) + `,"n":` + strconv.Itoa(seq) + `}`)
 	case "bytes":
-		if seq%5 == 4 {
-			return []byte{}
+		if seq == 4 {
+			return []byte{} // one zero-length sample per channel (values stay unique)
 		}
 		b := make([]byte, 1+seq%9)
 		for i := range b {
@@ -581,6 +583,28 @@ func genScript(t *rapid.T, o genOpts) vScript {
 		}
 	}
 	return vScript{Schema: p.sch, Ops: p.ops}
+}
+
+// ---- determinism --------------------------------------------------------------------------------
+
+type detReader struct{ x uint64 }
+
+func (d *detReader) Read(p []byte) (int, error) {
+	for i := range p {
+		d.x ^= d.x << 13
+		d.x ^= d.x >> 7
+		d.x ^= d.x << 17
+		p[i] = byte(d.x >> 24)
+	}
+	return len(p), nil
+}
+
+// vDeterminize pins the process-wide randomness the engine reaches: google/uuid (writer
+// control subjects, delete gate subjects) and the top-level math/rand functions (names of
+// directories being deleted). Workers run with GODEBUG=randseednop=0.
+func vDeterminize(seed uint64) {
+	uuid.SetRand(&detReader{x: seed*2654435761 + 0x9E3779B97F4A7C15})
+	mrand.Seed(int64(seed) + 1)
 }
 
 // ---- runner -----------------------------------------------------------------------------------
@@ -1159,6 +1183,7 @@ func (r *vRun) countDataFiles(k uint32) int {
 
 // runSeq executes a script sequentially (op tier) inside a bubble.
 func runSeq(t *testing.T, sc vScript, st *drv.Stats, setup func(r *vRun)) (fail *drv.Failure) {
+	vDeterminize(uint64(len(sc.Ops)) + uint64(sc.Schema.FileSize))
 	var run *vRun
 	defer func() {
 		if fail != nil && run != nil && run.taint != "" && fail.Class != "harness" {
